@@ -409,8 +409,12 @@ func project(s *subject) map[string]interface{} {
 }
 
 type history struct {
-	Mode string `json:"mode"` // "edge": observe the state before and after the last call; "full": after every call
-	Ops  []call `json:"ops"`
+	// "full": Reset, then every call of ops observed in sequence;
+	// "fan":  Reset at the state reached by prefix, then every call of ops observed FROM THAT STATE
+	//         (the edges of one model state: they share the call path that reaches it)
+	Mode   string `json:"mode"`
+	Prefix []call `json:"prefix"`
+	Ops    []call `json:"ops"`
 }
 
 func opsJSON(ops []call) []interface{} {
@@ -471,27 +475,27 @@ func main() {
 	calls := 0
 	base := func(event string, c call, r result) map[string]interface{} {
 		return map[string]interface{}{"event": event, "k": c.K, "v": c.V, "got": r.got, "res": r.res, "err": r.err, "panicked": r.panicked,
-			"ops": []interface{}{}, "keys": []interface{}{}, "vlen": []int{}, "vfirst": []int{}}
+			"ops": []interface{}{}, "keys": []interface{}{}, "vlen": []int{}, "vfirst": []int{}, "fan": false}
 	}
 	for n, h := range histories {
-		// "Reset" starts a history: the state reached by the call prefix `ops`
-		// (empty for a full history; everything but the last call for an edge)
-		from := 0
-		if h.Mode == "edge" && len(h.Ops) > 0 {
-			from = len(h.Ops) - 1
-		}
+		fan := h.Mode == "fan"
 		ev := base("Reset", call{}, result{})
 		if n == 0 {
 			ev["keys"], ev["vlen"], ev["vfirst"] = keys, vlen, vfirst
 		}
-		ev["ops"] = opsJSON(h.Ops[:from])
-		ev["proj"] = project(replay(h.Ops[:from]))
+		ev["ops"] = opsJSON(h.Prefix)
+		ev["proj"] = project(replay(h.Prefix))
 		emit(ev)
-		for i := from; i < len(h.Ops); i++ {
-			s := replay(h.Ops[:i])
+		for i := range h.Ops {
+			pre := h.Prefix
+			if !fan {
+				pre = append(append([]call{}, h.Prefix...), h.Ops[:i]...)
+			}
+			s := replay(pre)
 			r := s.apply(h.Ops[i])
-			calls += i + 1
+			calls += len(pre) + 1
 			ev := base(h.Ops[i].Op, h.Ops[i], r)
+			ev["fan"] = fan
 			ev["proj"] = project(s)
 			emit(ev)
 		}
